@@ -2132,7 +2132,7 @@ func ruleDefaultValueSemantics(c *Ctx, r *Report) {
 // silently keys entries by the UNSET enumeration value, and defeats retrieveNodeList's fallback to
 // the map key for entries in a transitory state.
 func ruleUnsetKey(c *Ctx, r *Report) {
-	r.Rule("R-UNSET-KEY", "ytypes.getKeyValue returns a by-value key leaf only after testing that it is not the zero value (as it tests a pointer key leaf for nil), and makeKeyForInsert copies a key leaf into the key struct only after a test that covers a zero by-value leaf", 2)
+	r.Rule("R-UNSET-KEY", "ytypes.getKeyValue returns a by-value key leaf only after testing that it is not the zero value (as it tests a pointer key leaf for nil), and makeKeyForInsert copies a key leaf into the key struct only after tests that cover a nil pointer leaf (validity of the dereferenced Value) and a zero by-value leaf", 4)
 	zeroTested := func(f *FuncInfo, at ast.Node) (bool, string) {
 		info := f.Info()
 		for _, ft := range c.FactsAt(f, at, false) {
@@ -2152,6 +2152,34 @@ func ruleUnsetKey(c *Ctx, r *Report) {
 		}
 		return false, ""
 	}
+	// validTested: the facts at `at` establish that a dereferenced pointer key leaf is a valid Value
+	// (X.IsValid() holds, or X.IsNil() does not).
+	validTested := func(f *FuncInfo, at ast.Node, about ast.Expr) (bool, string) {
+		info := f.Info()
+		for _, ft := range c.FactsAt(f, at, false) {
+			if ft.Kind != "cond" {
+				continue
+			}
+			if call, ok := ast.Unparen(ft.Cond).(*ast.CallExpr); ok {
+				// the test must be about the value that is used (the dereferenced leaf), not
+				// about the field lookup that precedes it.
+				if sel, isSel := call.Fun.(*ast.SelectorExpr); !isSel || !sameExpr(info, sel.X, about) {
+					continue
+				}
+				switch FullName(Callee(info, call)) {
+				case "reflect.Value.IsValid":
+					if ft.Pos {
+						return true, types.ExprString(ft.Cond)
+					}
+				case "reflect.Value.IsNil":
+					if !ft.Pos {
+						return true, "not " + types.ExprString(ft.Cond)
+					}
+				}
+			}
+		}
+		return false, ""
+	}
 	if f := c.MustFunc(r, "ytypes", "getKeyValue"); f != nil {
 		info := f.Info()
 		n := 0
@@ -2166,6 +2194,9 @@ func ruleUnsetKey(c *Ctx, r *Report) {
 			// the by-value return: the receiver is the field itself, not its Elem().
 			recv := ast.Unparen(call.Fun.(*ast.SelectorExpr).X)
 			if inner, ok := recv.(*ast.CallExpr); ok && FullName(Callee(info, inner)) == "reflect.Value.Elem" {
+				okv, whyv := validTested(f, rs, recv)
+				r.Check(okv, "ytypes.getKeyValue:pointer-return", c.Pos(rs.Pos()), "nil pointer key leaves are refused: "+whyv,
+					"getKeyValue dereferences a pointer key leaf without testing that it is set: Interface() on the zero Value of a nil pointer panics")
 				continue
 			}
 			n++
@@ -2190,6 +2221,9 @@ func ruleUnsetKey(c *Ctx, r *Report) {
 				return true
 			}
 			n++
+			okv, whyv := validTested(f, call, call.Args[0])
+			r.Check(okv, fmt.Sprintf("ytypes.makeKeyForInsert:key-field-copy#%d:valid", n), c.Pos(call.Pos()), "nil pointer key leaves are refused: "+whyv,
+				"makeKeyForInsert uses the dereferenced key leaf without testing that it is a valid Value: for a JSON list entry that omits one of the keys of a multi-key list the key field is a nil pointer, its Elem()/Indirect is the zero Value, and Interface()/Type()/Set on it panic instead of returning an error")
 			ok2, why := zeroTested(f, call)
 			r.Check(ok2, fmt.Sprintf("ytypes.makeKeyForInsert:key-field-copy#%d", n), c.Pos(call.Pos()), "zero (unset) by-value key leaves are refused: "+why,
 				"makeKeyForInsert copies a key leaf into the key struct after testing only reflect validity: an unset by-value key leaf (nil union, UNSET enumeration) of a multi-key list entry is accepted and the entry is stored under a key it cannot be rendered or addressed by")
